@@ -279,6 +279,29 @@ def handleAlias (j : Json) : Except String Json := do
              ("noWriter", Json.bool (stages.all (fun s => !s.writesInput)))])
 
 
+/-! ### Phase 5: the stage table.  `{"stages": {"obs": [[mro, attr], …]}}` → the table, the constants the model uses, and for every
+observed (class names of an object, attribute that changed between reads) whether the table allows it -/
+def repName : StateRep → String
+  | .cacheSt => "cacheSt" | .isempty => "isempty" | .lookup => "lookup" | .started => "started" | .unobserved => "unobserved"
+
+def cacheNodeJson : Node → Json
+  | .cache sz prot st => obj [("sz", ofOpt ofNat sz), ("prot", Json.bool prot), ("unread", Json.bool (match st with | .unread => true | _ => false))]
+  | _ => Json.null
+
+def handleStages (q : Json) : Except String Json := do
+  let obs ← (← arr (fieldD q "obs" (Json.arr #[]))).mapM (fun e => do
+    match (← arr e) with
+    | [m, a] => pure ((← strList m), (← str a))
+    | _ => throw "obs must be [mro, attr]")
+  pure (obj [("table", ofList (fun (r : StageRow) => obj [("file", Json.str r.file), ("cls", Json.str r.cls),
+                ("attrs", ofList Json.str r.attrs), ("rep", Json.str (repName r.rep))]) stageTable),
+             ("allowed", ofList (fun (p : List String × String) => Json.bool (stateAllowed p.1 p.2)) obs),
+             ("classes", ofList Json.str modelEnvClasses),
+             ("shortcutCache", cacheNodeJson shortcutCacheNode),
+             ("materializeCache", cacheNodeJson materializeCacheNode),
+             ("saveBatch", ofNat (saveBatchModel + 1)),
+             ("loggedFactor", ofList ofNat [loggedSeedFactor.1, loggedSeedFactor.2])])
+
 /-! ### Phase 4: fitting-window stages on content, general aliasing stages -/
 
 /-- stand-in for `statistics.stdev` (the theorems are generic in `sd`): sample standard deviation, root to 20 decimals -/
@@ -336,6 +359,7 @@ def parseFitStage (j : Json) : Except String FitStage := do
     let st : C11.Stat ← (match (← str (← field j "stat")) with
       | "mean" => pure .mean | "median" => pure .median | "mode" => pure .mode | x => throw s!"unknown stat {x}")
     pure (.impute st (← bool (← field j "ind")) u)
+  | "noise" => pure (FitStage.noiseInt (← int (← field j "seed")) (← int (← field j "lo")) (← int (← field j "hi")))
   | x => throw s!"unknown fit stage {x}"
 
 def parseDemand (j : Json) : Except String Demand := do
@@ -399,6 +423,9 @@ def handle (req : Json) : Except String Json := do
   match req.getObjVal? "memo" with
   | .ok m => handleMemo m
   | .error _ =>
+  match req.getObjVal? "stages" with
+  | .ok q => handleStages q
+  | .error _ =>
   let variant := parseVariant (← str (← field req "variant"))
   let finJ ← field req "fin"
   -- Finalize's stateless part: Model/C10's function on content when the request carries the content, else its table
@@ -422,7 +449,7 @@ def handle (req : Json) : Except String Json := do
              ("dens", ofList (fun (o : Obj) => ofNatListJson o.den) objs),
              ("hyp", Json.bool (objs.all (hypB w))),
              ("caller", ofList ofNatListJson (hrunW h ops).caller),
-             ("saveBatches", ofList (fun (o : Obj) => ofNat (saveBatches 999 o.den).length) objs),
-             ("saveRoundTrip", Json.bool (objs.all (fun o => loadBatches (saveBatches 999 o.den) == o.den)))])
+             ("saveBatches", ofList (fun (o : Obj) => ofNat (saveBatches saveBatchModel o.den).length) objs),
+             ("saveRoundTrip", Json.bool (objs.all (fun o => loadBatches (saveBatches saveBatchModel o.den) == o.den)))])
 
 end Coba.C04.Driver
